@@ -245,3 +245,22 @@ Theorem C07_fsdp_rank_is_group_step_iteration :
     = (sstepc R, Compose.abs_blocks dims (length L) R).
 Proof. exact @ComposeFsdp.fsdp_rank_is_group_step_iteration. Qed.
 Print Assumptions C07_fsdp_rank_is_group_step_iteration.
+
+(* HSDP: every replica of a shard column - any replicate size, group size and block-to-rank assignment, every history
+   (starving ranks included), communication at least as precise as the parameters - holds, block by block, the values that
+   iterating the documented group step produces on the recovered pieces of the column's shards *)
+Theorem C07_hsdp_replicas_follow_update_rule :
+  forall F (Op : Scalar.ops F) (c : Optimizer.cfg (F:=F)) (delem : F) (hh : Z -> Optimizer.hints (F:=F))
+         (ans : nat -> Z -> list (list (list F))) (R gs : nat) (owner : nat -> nat) thr merge (ms : list meta) T (h : list (pentry F)),
+    let L := ser_blocks thr merge (piece_shapes ms) in
+    let dims := ComposeFsdp.dims_of L in
+    wf_config (hsdp_P Compose.st_empty (Compose.fn_upd Op c dims hh ans) (fun _ q => q) (fun v => v) R gs owner thr merge ms) ->
+    1 <= thr -> Forall meta_ok ms -> tensors_ok ms T -> Forall (pentry_ok ms) h ->
+    exists cl, hsdp_col_run Compose.st_empty delem (Compose.fn_upd Op c dims hh ans) (fun _ q => q) (fun v => v) R gs owner thr merge ms T h = Some cl /\
+      forall i, (i < R)%nat ->
+        tab (length L) (fun b => nth b (vals (cget cl i)) [])
+        = map (Optimizer.b_w (F:=F))
+              (snd (Compose.model_run_fn Op c hh ans (length L) (map (ser_entry delem thr merge (piece_shapes ms)) (map (piece_entry ms) h)) 0
+                                         (Compose.abs_blocks dims (length L) (ser_init_state Compose.st_empty delem thr merge (piece_shapes ms) (piece_tensors ms T))))).
+Proof. exact @ComposeFsdp.hsdp_replicas_follow_update_rule. Qed.
+Print Assumptions C07_hsdp_replicas_follow_update_rule.
